@@ -13,9 +13,9 @@ VARIABLES ms, pc, bad, nextScope, emitted
 vars == <<ms, pc, bad, nextScope, emitted>>
 
 Cfgs == {[fw |-> f, nmw |-> n, mwfail |-> mf, handler |-> h, registered |-> rg, method |-> m, recovery |-> rc,
-          scopemw |-> sm, provclosed |-> pcl, batch |-> b, outer |-> ou, closefail |-> cf, defeh |-> de] :
+          scopemw |-> sm, provclosed |-> pcl, batch |-> b, outer |-> ou, closefail |-> cf, defeh |-> de, replacectx |-> rx] :
             f \in Frameworks, n \in 0..MaxMw, mf \in 0..MaxMw, h \in {"ok", "err", "panic", "handle"}, rg \in BOOLEAN,
-            m \in {"ok", "panic"}, rc \in BOOLEAN, sm \in BOOLEAN, pcl \in BOOLEAN, b \in Batches, ou \in BOOLEAN, cf \in BOOLEAN, de \in BOOLEAN}
+            m \in {"ok", "panic"}, rc \in BOOLEAN, sm \in BOOLEAN, pcl \in BOOLEAN, b \in Batches, ou \in BOOLEAN, cf \in BOOLEAN, de \in BOOLEAN, rx \in BOOLEAN}
 \* drop combinations that only repeat others
 Relevant(c) == /\ c.mwfail <= c.nmw
                /\ (c.handler # "handle" => (c.registered /\ c.method = "ok" /\ ~c.recovery))
@@ -24,6 +24,8 @@ Relevant(c) == /\ c.mwfail <= c.nmw
                /\ (c.batch > 1 => (c.handler \in {"ok", "handle"} /\ c.mwfail = 0 /\ ~c.provclosed))
                /\ (c.outer => (c.scopemw /\ ~c.provclosed /\ c.mwfail = 0 /\ c.handler \in {"ok", "handle"}))
                /\ (c.closefail => (c.scopemw /\ ~c.provclosed /\ ~c.outer /\ c.nmw <= 1))
+               /\ (c.replacectx => (c.fw = "fiber" /\ c.handler = "handle" /\ c.scopemw /\ ~c.provclosed /\ c.mwfail = 0
+                                    /\ ~c.outer /\ ~c.closefail /\ ~c.defeh))
                /\ (c.defeh => (c.scopemw /\ (c.provclosed \/ c.mwfail > 0) /\ ~c.outer /\ ~c.closefail))
 
 Reqs(c) == 1..c.batch
